@@ -27,6 +27,9 @@ use crate::{
 /// Binding power for prefix operators.
 const PREFIX_BP: u8 = 19;
 
+/// Maximum expression nesting depth (same limit as the standalone expression parser).
+const MAX_EXPR_DEPTH: usize = 64;
+
 /// Returns binding power for infix operators.
 const fn infix_binding_power(op: BinaryOp) -> (u8, u8) {
     use BinaryOp::*;
@@ -49,6 +52,7 @@ pub struct Parser<'a> {
     lexer: Lexer<'a>,
     current: Token,
     peeked: Option<Token>,
+    depth: usize,
 }
 
 impl<'a> Parser<'a> {
@@ -62,6 +66,7 @@ impl<'a> Parser<'a> {
             lexer,
             current,
             peeked: None,
+            depth: 0,
         }
     }
 
@@ -192,6 +197,16 @@ impl<'a> Parser<'a> {
 
     /// Parses an expression with the given minimum binding power.
     fn parse_expr_bp(&mut self, min_bp: u8) -> ParseResult<Expr> {
+        if self.depth >= MAX_EXPR_DEPTH {
+            return Err(ParseError::new(ParseErrorKind::TooDeep, self.current.span));
+        }
+        self.depth += 1;
+        let result = self.parse_expr_bp_inner(min_bp);
+        self.depth -= 1;
+        result
+    }
+
+    fn parse_expr_bp_inner(&mut self, min_bp: u8) -> ParseResult<Expr> {
         let mut lhs = self.parse_prefix_expr()?;
 
         loop {
